@@ -141,7 +141,7 @@ def run_composed(ctx, n=1500):
 # resources): module UsageLifecycle (check X10), on the real handler behind the objectSelector of usage.yaml.
 RIDER_FORMULAS = ["Webhook.NonDelete", "Webhook.Scope", "Webhook.Reached", "Webhook.Deny", "Webhook.FailClosed", "Webhook.Deny.Panic",
                   "Webhook.Recorded", "Webhook.Recorded.Panic", "Webhook.Allow", "Webhook.OnlyAnnotation", "DryRun.NoEffect",
-                  "Finalizer.BeforeLabel", "Used.OnlyLabel", "Used.OnlyNamed", "Ready.Needs", "Delete.Order"]
+                  "Finalizer.BeforeLabel", "Used.OnlyLabel", "Used.OnlyNamed", "Ready.Needs", "Ready.Owned", "Owner.Added", "Owner.Kept", "Settled.Ready", "Delete.Order"]
 
 
 def rider_lifecycle(ctx):
